@@ -141,6 +141,12 @@ def node_of_id(cx, body, op, depth=0):
             res.add(node_of_id(cx, par, cop, depth + 1) if cop is not None else ("unk",))
         elif o.kind == "param":
             res.add(("idparam", o.data))
+        elif o.kind == "call" and callee_decl(o.data) == "core::iter::traits::iterator::Iterator::next":
+            # an element of a slice / vector of ids held in a parameter: `for id in ids.iter()`
+            src = set()
+            for oo in origins(body, o.site.node["args"][0], transparent=tags.ELEMENT_PRESERVING):
+                src.add(("idelem", oo.data) if oo.kind == "param" else ("unk",))
+            res.add(next(iter(src)) if len(src) == 1 else ("unk",))
         else:
             res.add(("unk",))
     return next(iter(res)) if len(res) == 1 else ("unk",)
@@ -262,7 +268,17 @@ def lits_of_literal(cx, body, op, depth=0):
             elif callee_matches(c, r"ConstraintsEncoder::arg_to_lit$|DynamicConstraintsEncoder::arg_to_lit$"):
                 out.append(("+", ("arg_to_lit",), node_of_label(cx, body, args[-1])))
             else:
-                out.append(("?", ("unk", "call " + d), ("unk",)))
+                tgt = cx.prog.body_for_callee(c, body) if c.get("decl") != "<indirect>" else None
+                if tgt is not None and tgt.kind != "closure" and tgt.ret_ty.endswith("sat::sat_solver::Literal") and depth < 4:
+                    # a local helper building a literal from ids / labels it is given: instantiate its summary
+                    for sg, kd, nd in lits_of_literal(cx, tgt, {"c": {"l": 0, "p": []}}, depth + 1):
+                        if nd[0] == "idparam" and nd[1] - 1 < len(args):
+                            nd = node_of_id(cx, body, args[nd[1] - 1])
+                        elif nd[0] == "lab" and nd[1] - 1 < len(args):
+                            nd = node_of_label(cx, body, args[nd[1] - 1])
+                        out.append((sg, kd, nd))
+                else:
+                    out.append(("?", ("unk", "call " + d), ("unk",)))
         elif o.kind == "param":
             if body.kind == "closure" and o.data == 2:
                 out.append(("+", ("elem",), ("unk",)))
